@@ -27,6 +27,17 @@ INVALID = ['hue', 'break', 'assign 5 5', 'set', 'xyz 1', 'define f begin end end
            'time at 25:00', 'repeat 2 with i from 1 hue 5', 'on all off', '{ 5 }', ')']
 
 
+# scripts whose loading relocates jumps (a routine defined inside an if / else / repeat body)
+RUN_CORPUS = [
+    'if {1 > 2} begin define f with a begin print a print a end f 1 end else begin print 7 end print 8',
+    'if {2 > 1} begin print 1 end else begin define g begin print 5 print 6 end g end print 9',
+    'assign n 0 repeat 3 begin define h with x begin print x print {x + 1} end h n assign n {n + 1} end print n',
+    'assign n 0 repeat while {n < 2} begin if {n > 0} begin define k begin print 4 return 3 end println [k] end '
+    'assign n {n + 1} end print 0',
+    'define outer begin print 1 end if {1 > 0} begin outer define inner begin print 2 end inner end outer',
+]
+
+
 def compile_result(parser, text):
     try:
         ok = parser.parse(text)
@@ -135,9 +146,20 @@ def run_histories(chk, stats):
     from bardolph.controller.script_job import ScriptJob
     rng = chk.rng
     n = 500 if chk.thorough else 80
-    for i in range(n):
-        prog, pop = progs.generate(rng, size=8, max_depth=3)
-        text = progs.render(prog)
+    corpus = list(RUN_CORPUS)
+    for i in range(n + len(corpus)):
+        if corpus:
+            text = corpus.pop()
+            pop = progs.population(rng)
+        else:
+            # every third script defines routines inside if / else / repeat bodies: the loader
+            # then has jumps to relocate around the routine, the one piece of the compiled program
+            # that loading rewrites
+            prog, pop = progs.generate(rng, size=8, max_depth=3,
+                                       features={'nested_define': i % 3 == 0})
+            text = progs.render(prog)
+        if 'define' in text and ('begin define' in text or 'else define' in text):
+            stats['nested_define_scripts'] = stats.get('nested_define_scripts', 0) + 1
         env.configure_basic()
         simnet.install(copy.deepcopy(pop))
         job = ScriptJob.from_string(text)
